@@ -35,6 +35,8 @@ impl<'a> IndexCtx<'a> {
     }
 
     pub fn push_file(&mut self, file_id: FileId) {
+        #[cfg(feature = "verif")]
+        syntax::verif::step();
         self.file_trace.push(file_id);
     }
 
